@@ -146,6 +146,13 @@ impl<R: Read> Read for AesReaderValid<R> {
         // 2^32 bytes even on 32 bit systems.
         let bytes_to_read = self.data_remaining.min(buf.len() as u64) as usize;
         let read = self.reader.read(&mut buf[0..bytes_to_read])?;
+        if read == 0 && bytes_to_read > 0 {
+            // the source ended although ciphertext (and the authentication code) are still due
+            return Err(io::Error::new(
+                io::ErrorKind::UnexpectedEof,
+                "AES encrypted data ended before its declared length",
+            ));
+        }
         self.data_remaining -= read as u64;
 
         // Update the hmac with the encrypted data
